@@ -47,6 +47,13 @@ import (
 // shutdown must finalize the pipeline, not race the shutdown with a restart.
 var errGracefulShutdownDuringRecovery = cerrors.New("graceful shutdown during recovery backoff")
 
+// errUserStopDuringRecovery is the per-pipeline counterpart of
+// errGracefulShutdownDuringRecovery: returned by StartWithBackoff when Stop was
+// called for this pipeline while it was parked in the recovery backoff wait. It
+// is never surfaced to callers: the cleanup goroutine maps it to a terminal
+// StatusUserStopped. A pipeline a user stopped must never be auto-restarted.
+var errUserStopDuringRecovery = cerrors.New("pipeline stopped by user during recovery backoff")
+
 type FailureEvent struct {
 	// ID is the ID of the pipeline which failed.
 	ID    string
@@ -507,6 +514,11 @@ func (s *Service) stopRunnablePipeline(ctx context.Context, rp *runnablePipeline
 		// (see the switch on rp.t.Err() below) classifies it as terminal and error
 		// recovery — once wired in — never auto-restarts a pipeline the user
 		// explicitly stopped.
+		// Mark the stop as deliberate as well: if this run already died with a
+		// transient error (e.g. it is parked in the recovery backoff wait) the
+		// Kill below is a no-op, and the marker is what keeps recovery from
+		// restarting it.
+		rp.intentionalStop.Store(true)
 		rp.t.Kill(cerrors.FatalError(pipeline.ErrForceStop))
 		return nil
 	}
@@ -1633,6 +1645,14 @@ func (s *Service) runPipeline(rp *runnablePipeline) error {
 					if updateErr := s.pipelines.UpdateStatus(ctx, rp.pipeline.ID, pipeline.StatusSystemStopped, ""); updateErr != nil {
 						return updateErr
 					}
+				case cerrors.Is(recoveryErr, errUserStopDuringRecovery):
+					// Stop was called for this pipeline while we were parked in
+					// the backoff wait. Finalize as a user stop and run the
+					// cleanup tail so the entry is removed.
+					err = nil
+					if updateErr := s.pipelines.UpdateStatus(ctx, rp.pipeline.ID, pipeline.StatusUserStopped, ""); updateErr != nil {
+						return updateErr
+					}
 				default:
 					// Recovery is exhausted (MaxRetries) or itself errored.
 					s.logger.
@@ -1776,6 +1796,8 @@ func (s *Service) recoverPipeline(ctx context.Context, rp *runnablePipeline) err
 //     cleanup and the caller must NOT run its cleanup tail.
 //   - errGracefulShutdownDuringRecovery: a graceful shutdown began during the
 //     backoff wait; the caller finalizes a system stop instead of restarting.
+//   - errUserStopDuringRecovery: Stop was called for this pipeline during the
+//     backoff wait; the caller finalizes a user stop instead of restarting.
 //   - any other error: a fatal recovery failure (MaxRetries exhausted) or a
 //     Start error; the caller degrades the pipeline.
 func (s *Service) StartWithBackoff(ctx context.Context, rp *runnablePipeline) error {
@@ -1831,6 +1853,13 @@ func (s *Service) StartWithBackoff(ctx context.Context, rp *runnablePipeline) er
 	// concurrent restart still wins.
 	if s.isGracefulShutdown.Load() {
 		return errGracefulShutdownDuringRecovery
+	}
+
+	// If the user stopped this pipeline while we waited (Stop accepts a
+	// Recovering pipeline and marks the published run, i.e. rp), do not restart
+	// it out from under them — finalize a user stop instead.
+	if rp.intentionalStop.Load() {
+		return errUserStopDuringRecovery
 	}
 
 	return s.Start(ctx, rp.pipeline.ID)
